@@ -19,6 +19,8 @@ pub(crate) mod c01;
 pub(crate) mod c10;
 #[path = "/verif/harness/d/c13.rs"]
 pub(crate) mod c13;
+#[path = "/verif/harness/d/c07.rs"]
+pub(crate) mod c07;
 
 use vcore::{BatchPlan, Check};
 
@@ -58,7 +60,7 @@ pub(crate) fn enable_active_connect(peer: &mut Peer, ch: mpsc::UnboundedSender<T
 
 fn plan(property: &str) -> BatchPlan {
     match property {
-        _ => BatchPlan { quick_runs: 2_000, thorough_runs: 200_000 },
+        _ => BatchPlan { quick_runs: 20_000, thorough_runs: 2_000_000 },
     }
 }
 
@@ -67,6 +69,7 @@ pub(crate) fn verif_main(args: &[String]) -> i32 {
     let c01 = c01::Convergence;
     let c10 = c10::GrHelper;
     let c13 = c13::RtrClient;
-    let checks: Vec<&dyn Check> = vec![&c08, &c01, &c10, &c13];
+    let c07 = c07::FsmWire;
+    let checks: Vec<&dyn Check> = vec![&c08, &c01, &c10, &c13, &c07];
     vcore::main_with(&checks, &plan, args)
 }
